@@ -25,7 +25,8 @@ HU = "harness/c13_unit.c"
 def unit(mode, n, alphabet, timeout=900, solver=None):
     fn = {1: "scpiParser_parseProgramData", 2: "scpiParser_detectProgramMessageUnit"}[mode]
     return Case("unit-m%d-n%d-a%d" % (mode, n, alphabet), HU, ["lexer.c", "parser.c", "utils.c", "error.c", "fifo.c", "ieee488.c"],
-                defs=["-DMODE=%d" % mode, "-DN=%d" % n, "-DALPHABET=%d" % alphabet], unwind=n + 3, timeout=timeout,
+                defs=["-DMODE=%d" % mode, "-DN=%d" % n, "-DALPHABET=%d" % alphabet], unwind=n + 3,
+                unwindset={"scpiParser_parseAllProgramData.0": n // 2 + 2}, timeout=timeout,
                 solver=solver, models=True,
                 functions=[fn, "scpiParser_parseAllProgramData"] + [TOKS[t] for t in sorted(TOKS)],
                 bounds=dict(function=fn, input="every string of length 0..%d over %s" % (
